@@ -99,7 +99,7 @@ void parsec_vector_two_dim_cyclic_init( parsec_vector_two_dim_cyclic_t * dc,
         if ( dc->grid.rrank == 0 ) {
             dc->super.nb_local_tiles = dc->super.lmt / Q;
 
-            if ( dc->grid.rrank < (dc->super.lmt % Q) )
+            if ( dc->grid.crank < (dc->super.lmt % Q) )
                 (dc->super.nb_local_tiles)++;
         }
     }
@@ -112,7 +112,7 @@ void parsec_vector_two_dim_cyclic_init( parsec_vector_two_dim_cyclic_t * dc,
         if ( dc->grid.crank == 0 ) {
             dc->super.nb_local_tiles = dc->super.lmt / P;
 
-            if ( dc->grid.crank < (dc->super.lmt % P) )
+            if ( dc->grid.rrank < (dc->super.lmt % P) )
                 (dc->super.nb_local_tiles)++;
         }
     }
@@ -175,10 +175,10 @@ static uint32_t vector_twoDBC_rank_of(parsec_data_collection_t * desc, ...)
     m += dc->super.i / dc->super.mb;
 
     /* P(rr, cr) has the tile, compute the rank*/
-    if ( dc->distrib != PARSEC_VECTOR_DISTRIB_COL )
+    if ( dc->distrib != PARSEC_VECTOR_DISTRIB_ROW )
         rr = m % dc->grid.rows;
 
-    if ( dc->distrib != PARSEC_VECTOR_DISTRIB_ROW )
+    if ( dc->distrib != PARSEC_VECTOR_DISTRIB_COL )
         cr = m % dc->grid.cols;
 
     res = rr * dc->grid.cols + cr;
@@ -218,10 +218,10 @@ static int32_t vector_twoDBC_vpid_of(parsec_data_collection_t *desc, ...)
 #endif
 
     /* Compute the local tile row */
-    if ( dc->distrib != PARSEC_VECTOR_DISTRIB_COL )
+    if ( dc->distrib != PARSEC_VECTOR_DISTRIB_ROW )
         local_m = (m / dc->grid.rows) % p;
 
-    if ( dc->distrib != PARSEC_VECTOR_DISTRIB_ROW )
+    if ( dc->distrib != PARSEC_VECTOR_DISTRIB_COL )
         local_n = (m / dc->grid.cols) % q;
 
     vpid = local_m * q + local_n;
